@@ -1,10 +1,12 @@
 package main
 
 import (
+	"encoding/json"
 	"fmt"
 	"go/token"
 	"go/types"
 	"os"
+	"path/filepath"
 	"sort"
 	"strings"
 
@@ -30,6 +32,10 @@ type Prog struct {
 	rend      map[*ssa.Function]*Renderer
 	cg        *CallGraph
 	NFiles    int
+	// Overlay: absolute path under Dir -> replacement content (mutant self-test: the variant tree is
+	// /repo's working tree with these files replaced; never used for the verdict on /repo itself)
+	Overlay     map[string][]byte
+	overlayJSON string
 }
 
 func infraFail(format string, a ...any) {
@@ -47,7 +53,36 @@ func isProdPkg(path string) bool {
 }
 
 // Load type-checks ./... of dir and builds SSA for the repository packages.
-func Load(dir string) *Prog {
+func Load(dir string, overlayDir string) *Prog {
+	overlay := map[string][]byte{}
+	overlayJSON := ""
+	if overlayDir != "" {
+		repl := map[string]string{}
+		err := filepath.Walk(overlayDir, func(path string, info os.FileInfo, err error) error {
+			if err != nil || info.IsDir() {
+				return err
+			}
+			rel, _ := filepath.Rel(overlayDir, path)
+			b, err := os.ReadFile(path)
+			if err != nil {
+				return err
+			}
+			overlay[filepath.Join(dir, rel)] = b
+			repl[filepath.Join(dir, rel)] = path
+			return nil
+		})
+		if err != nil || len(overlay) == 0 {
+			infraFail("overlay %s: %v (%d files)", overlayDir, err, len(overlay))
+		}
+		jb, _ := json.Marshal(map[string]any{"Replace": repl})
+		f, err := os.CreateTemp("", "goatverif-overlay-*.json")
+		if err != nil {
+			infraFail("overlay json: %v", err)
+		}
+		f.Write(jb)
+		f.Close()
+		overlayJSON = f.Name()
+	}
 	env := append(os.Environ(),
 		"GOFLAGS=-mod=mod", "GOPROXY=off", "GOSUMDB=off", "GOTOOLCHAIN=local", "GOWORK=off", "CGO_ENABLED=1")
 	cfg := &packages.Config{
@@ -56,6 +91,7 @@ func Load(dir string) *Prog {
 		Env:        env,
 		BuildFlags: []string{"-tags", "verif"},
 		Tests:      false,
+		Overlay:    overlay,
 	}
 	pkgs, err := packages.Load(cfg, "./...")
 	if err != nil {
@@ -64,7 +100,7 @@ func Load(dir string) *Prog {
 	if len(pkgs) == 0 {
 		infraFail("no packages loaded from %s", dir)
 	}
-	p := &Prog{Dir: dir, Pkgs: pkgs, ByPath: map[string]*packages.Package{}, byName: map[string]*ssa.Function{}, rend: map[*ssa.Function]*Renderer{}}
+	p := &Prog{Dir: dir, Pkgs: pkgs, ByPath: map[string]*packages.Package{}, byName: map[string]*ssa.Function{}, rend: map[*ssa.Function]*Renderer{}, Overlay: overlay, overlayJSON: overlayJSON}
 	for _, pk := range pkgs {
 		if len(pk.Errors) > 0 || pk.IllTyped {
 			for _, e := range pk.Errors {
